@@ -1152,6 +1152,86 @@ def loaderOf (ext : Str) : Option Fmt :=
 def loadContent (expand : Str → Str) (useEnv : Bool) (content : Str) : Str :=
   if useEnv then expand content else content
 
+/-! ### the decisions of the unmarshaller's dispatch functions (round 5c)
+
+The routing that `unmarshalStruct` / `withValue` / `withoutValue` implement, as first-order decision functions; `Tie.lean`
+proves the Go conditions (translated by `c17CondsSw`, in source order) equal to them for ALL arguments, `Props.lean`
+proves that the model follows them. -/
+
+/-- the `reflect.Kind`s the dispatch looks at (a `json.Number` and a string both have kind String). -/
+inductive RK where
+  | map | slice | string | struct | other
+  deriving DecidableEq, Repr
+
+/-- `processFieldNotFromString`: which filler a (value kind, dereferenced field kind) pair reaches. -/
+inductive NfsRoute where
+  | structFromMap | fillSlice | fillMap | mapFromString | sliceFromString | duration | unmarshalerStruct | primitive
+  deriving DecidableEq, Repr
+
+def nfsRoute (vk tk : RK) (isDuration implUnm : Bool) : NfsRoute :=
+  match vk, tk with
+  | .map, .struct => .structFromMap
+  | .slice, .slice => .fillSlice
+  | .map, .map => .fillMap
+  | .string, .map => .mapFromString
+  | .string, .slice => .sliceFromString
+  | .string, tk => if isDuration then .duration else if tk = .struct && implUnm then .unmarshalerStruct else .primitive
+  | _, _ => .primitive
+
+def kindOfJ : J → RK
+  | .obj _ => .map
+  | .arr _ => .slice
+  | .nilArr => .slice
+  | .str _ => .string
+  | .num _ => .string
+  | _ => .other
+
+/-- the kind of the DEREFERENCED field type (`Deref(fieldType).Kind()`). -/
+def kindOfTy : Ty → RK
+  | .ptr t => kindOfTy t
+  | .struct _ => .struct
+  | .slice _ => .slice
+  | .map _ => .map
+  | .prim .string => .string
+  | .prim _ => .other
+
+/-- `processNamedField`: what happens to one named field. -/
+inductive FieldRoute where
+  | skip | env | noValue | value
+  deriving DecidableEq, Repr
+
+def fieldRoute (exported ignored hasEnvVar envSet fillDefault hasValue : Bool) : FieldRoute :=
+  if !exported || ignored then .skip
+  else if hasEnvVar && envSet then .env
+  else if fillDefault || !hasValue then .noValue
+  else .value
+
+/-- the route the model's `unmarshalStruct` takes for a field (exported, never `-`, no fillDefault). -/
+def modelFieldRoute (o : Opts) (f : FMeta) (found : Option J) : FieldRoute :=
+  fieldRoute true false (decide (f.envVar ≠ [])) (decide (envLookup o.env f.envVar ≠ [])) false found.isSome
+
+/-- what `unmarshalStruct` looks up for a field (canonical key, parent chain, `WithFromArray`). -/
+def modelFound (o : Opts) (ps : List JM) (f : FMeta) (t : Ty) (m : JM) : Option J :=
+  if o.fromArray then (getValue o f.inherit ps m (if o.canon then lower f.tagKey else f.tagKey)).map (fromArrayAdj t.isSlice)
+  else getValue o f.inherit ps m (if o.canon then lower f.tagKey else f.tagKey)
+
+/-- `WithFromArray` inside `processNamedField`: the first element is taken iff the field is no slice / array, the value
+is one, and it is not empty. -/
+def fromArrayTakesFirst (fromArray valueNil fieldIsSeq valueIsSeq : Bool) (len : Int) : Bool :=
+  fromArray && !valueNil && !fieldIsSeq && valueIsSeq && decide (len > 0)
+
+def JL.lengthInt : JL → Int
+  | .nil => 0
+  | .cons _ t => t.lengthInt + 1
+
+def jSeqLen : J → Int
+  | .arr l => l.lengthInt
+  | _ => 0
+
+/-- `processNamedFieldWithValue` on a nil value, and the from-string decision for primitive kinds. -/
+def nilValueAccepted (optional : Bool) : Bool := optional
+def primFromString (uFromString fFromString : Bool) : Bool := uFromString || fFromString
+
 /-! ### the option LIST of the mapping entry points
 
 `mapping.UnmarshalJsonBytes(content, v, opts...)`: `getJsonUnmarshaler` builds `NewUnmarshaler(jsonTagKey, opts...)`, which
